@@ -4,6 +4,7 @@ import (
 	"bytes"
 	"errors"
 	"fmt"
+	"io"
 	"net/http"
 	"sort"
 	"strings"
@@ -278,6 +279,11 @@ func Run(s *Script, c Ctx, tr *Trace) {
 			if o.N == 1 { // through the context helper instead of the writer
 				c.WriteString(o.S)
 				tr.Add("  %s WriteString(%d bytes) length=%d", s.Name, len(o.S), c.Length())
+				break
+			}
+			if o.N == 2 { // io.Copy from a reader without WriteTo: uses the writer's ReadFrom when it has one
+				n, err := io.Copy(c.Resp(), io.LimitReader(strings.NewReader(o.S), int64(len(o.S))))
+				tr.Add("  %s io.Copy n=%d err=%v length=%d", s.Name, n, err != nil, c.Length())
 				break
 			}
 			n, err := c.Resp().Write([]byte(o.S))
